@@ -1,5 +1,5 @@
 """C12 - batch runs solve each game in isolation and report failures."""
-from .. import ops, pools, report, textstyle
+from .. import ops, pools, proc, report, textstyle
 from ..lit import enc, dec, canon, canon_e, h, short
 from . import common
 from .common import viol
@@ -25,7 +25,7 @@ RESULT_KEYS = ("final_strategies", "reachability_strategies", "rewards", "probab
 
 
 def n_fixed(tier):
-    return 1
+    return 2
 
 
 def fixed_specs(tier, ctx):
@@ -35,7 +35,31 @@ def fixed_specs(tier, ctx):
     b = pp[1][1] if len(pp) > 1 else a
     return [{"cfg": {"klass": "collision"},
              "pool": [{"name": "g", "desc": a, "tag": "paper0"}, {"name": "g_no_prune", "desc": b, "tag": "paper1"}],
-             "ops": [{"op": "batch", "games": [0, 1]}]}]
+             "ops": [{"op": "batch", "games": [0, 1]}]}, _quiet_spec(tier)]
+
+
+def _quiet_spec(tier):
+    """Batches of probe games (ascending size, renumbered states, one failing game among them), then the same
+    one-game batch about T/2 times in one process (= T solves), then the probe batches again (see C10)."""
+    import random as _r
+    rng = _r.Random(12)
+    pool = [{"name": "tiny", "desc": enc({"rewards": [1, 0], "players": ["Player 1", "Probabilistic"],
+                                            "transition_list": [[("go", 1)], [(1, 1)]], "final_states": [1]}), "tag": "quiet-tiny"}]
+    for n in (13, 19, 25, 31, 37, 43):
+        pool.append({"name": "probe%d" % n, "desc": enc(pools.permute_states(rng, pools.stopping_game(rng, n, n))), "tag": "quiet-probe"})
+    pool.append({"name": "failing", "desc": enc(pools.nosol_game(rng)), "tag": "quiet-nosol"})
+    probes = list(range(1, len(pool)))
+    targets = [2 ** 8, 2 ** 12, 2 ** 16] if tier == "quick" else [2 ** k for k in range(5, 18)] + [1000, 10000, 100000]
+    opl = []
+    for T in targets:
+        opl.append({"op": "restart", "entropy": T})
+        for g in probes:
+            opl.append({"op": "batch", "games": [g]})
+        opl.append({"op": "quiet", "games": [0], "times": max(1, (T - len(probes) - 1) // 2)})
+        for g in probes:
+            opl.append({"op": "batch", "games": [g]})
+        opl.append({"op": "batch", "games": probes})
+    return {"cfg": {"klass": "quiet-stretches"}, "pool": pool, "ops": opl}
 
 
 def _gen_marathon(rng):
@@ -337,7 +361,34 @@ def execute(spec, w, ctx):
         heavy = cfg["step_cap"] > 20 * 30000 + 100000
         if heavy and cfg.get("log") == "d":
             cfg["log"] = "i"    # debug logging emits a record per state per sweep
-        if kind == "batch":
+        if kind == "quiet":
+            arg = {pool[g]["name"]: live[g] for g in games}
+            times = int(op["times"])
+
+            def thunk():
+                run = proc.mod("conditionalrewards").run_games
+                first = None
+                for k in range(times):
+                    r_ = run(arg)
+                    cur = canon({n_: {f: x for f, x in e.items() if f != "total_time"} for n_, e in r_.items()})
+                    if first is None:
+                        first = (cur, r_)
+                    elif cur != first[0]:
+                        return (k, first[1], r_)
+                return (None, first[1] if first else {}, None)
+            out = w.run_op(thunk, {"step_cap": 40 * times * max(1, cfg["step_cap"] // 20) + 100000})
+            w.fired("quiet-stretch-batches", times)
+            events.append([i_op, "quiet", times, out["status"]])
+            if out["status"] != "ok":
+                v = viol("I12.3", i_op, "%d identical batches in a row did not finish: %s" % (times, _show(out)), "batch-aborted")
+            else:
+                k_, first_, cur_ = out["value"]
+                if k_ is not None:
+                    v = viol("I12.2", i_op, "batch #%d of the same games in a row differs from the first: %s vs %s" % (
+                        k_ + 1, short(cur_, 300), short(first_, 300)), "entry-differs")
+                else:
+                    v = check_entries(i_op, spec, games, first_, ctx, w, states)
+        elif kind == "batch":
             arg = {pool[g]["name"]: live[g] for g in games}
             if op.get("interrupt") and not heavy and cfg["step_cap"] < 20 * 6000 + 100000:
                 # measure a clean execution in fine steps (checked like any other), then interrupt a second one;
